@@ -126,6 +126,7 @@ func (n *Net) doCanned(c *Call, req *http.Request) (*http.Response, error) {
 			resp.ContentLength = n
 		}
 	}
+	announceTrailers(resp, c.K.DropTrailers)
 	resp.Body = &respBody{e: e, resp: resp}
 	e.resp = resp
 	e.mu.Lock()
